@@ -44,6 +44,10 @@ def gen(ctx):
             off = float(2 ** 27)
             dm["matrix"] = [[x + off for x in row] for row in dm["matrix"]]
             dm["int_matrix"] = False
+            if rng.random() < 0.5:
+                # ... with weights that are not dyadic (0.3, 0.45): products a*w are rounded at the size of the level
+                dm["weights"] = [rng.choice([0.3, 0.45, 0.7, 0.15, 1.1, 0.05, 0.6, 0.9]) for _ in dm["weights"]]
+                dm["family"] = "float"
         if rng.random() < 0.2:
             # the same problem in very small / very large units (exact power of two): "up to rounding" is relative to the scale
             k = 2.0 ** rng.choice([-40, -30, 30, 40])
@@ -60,7 +64,9 @@ def gen(ctx):
         tiny_forced = how == "tiny-negative"
         how = "negative" if tiny_forced else how
         if how == "min-objective":
-            dm["objectives"][rng.randrange(len(dm["objectives"]))] = -1
+            n_obj = len(dm["objectives"])
+            for j in rng.sample(range(n_obj), rng.randint(1, n_obj)):  # one, several or all of them (odd and even counts)
+                dm["objectives"][j] = -1
         elif how in ("zero", "negative"):
             i, j = rng.randrange(len(dm["matrix"])), rng.randrange(len(dm["objectives"]))
             tiny = tiny_forced or rng.random() < 0.2  # a negative value is a negative value, however small
@@ -159,6 +165,11 @@ def exact(case):
         ref = [max(A[i][j] for i in range(m)) if o[j] == 1 else min(A[i][j] for i in range(m)) for j in range(n)]
         return [max(abs(w[j] * (A[i][j] - ref[j])) for j in range(n)) for i in range(m)], ref
 
+    def refpoint_scale(s):
+        # w * (x - r): the difference of two doubles is correctly rounded, so the score carries a few ulps of ITS OWN size,
+        # whatever the common level of the data; the scale is the size of the scores, not of the cells
+        return float(max(s)) or lin_scale
+
     def fmf():
         return [sum((1 if o[j] == 1 else -1) * D(A[i][j] * w[j]).ln() for j in range(n)) for i in range(m)]
 
@@ -169,7 +180,7 @@ def exact(case):
         out["score"] = (ratio(), lin_scale)
     elif name == "RefPointMOORA":
         s, ref = refpoint()
-        out["score"] = (s, lin_scale)
+        out["score"] = (s, refpoint_scale(s))
         out["reference_point"] = (ref, float(absmax) or 1.0)
     elif name == "WPM":
         sc = [sum(D(w[j]) * D(A[i][j]).log10() for j in range(n)) for i in range(m)]
@@ -180,7 +191,7 @@ def exact(case):
     elif name == "MultiMOORA":
         out["ratio_score"] = (ratio(), lin_scale)
         s, ref = refpoint()
-        out["refpoint_score"] = (s, lin_scale)
+        out["refpoint_score"] = (s, refpoint_scale(s))
         out["reference_point"] = (ref, float(absmax) or 1.0)
         out["fmf_score"] = (fmf(), float(max(1, max(abs(D(A[i][j] * w[j]).ln()) for i in range(m) for j in range(n)) * n)))
     elif name == "TOPSIS":
